@@ -11,16 +11,19 @@ import (
 	"math/rand"
 	"os"
 	"path/filepath"
+	"regexp"
 	"strings"
 	"time"
 
 	"github.com/dave/dst"
 	"github.com/dave/dst/decorator"
+	"github.com/dave/dst/decorator/resolver/guess"
+	"github.com/dave/dst/decorator/resolver/goast"
 )
 
 func init() { register("C15", "exploration", checkC15) }
 
-const entryTraceCfg = `CONSTANT GuardPackage = TRUE
+const entryTraceCfg = `CONSTANTS GuardPackage = TRUE GuardImportPath = TRUE
 INIT TInit
 NEXT TNext
 INVARIANTS Conforms NeverPanics
@@ -90,7 +93,19 @@ func c15Run(src []byte) []c15Obs {
 		default:
 			o.Parse = "tree"
 		}
-		if f != nil {
+		if f != nil && entry == "Parse+imports" {
+			var buf bytes.Buffer
+			var perr error
+			if msg := guard(func() {
+				perr = decorator.NewRestorerWithImports("example.com/p", guess.New()).Fprint(&buf, f)
+			}); msg != "" {
+				o.Print, o.Msg = "panic", msg
+			} else if perr != nil {
+				o.Print = "printerror"
+			} else {
+				o.Print = "output"
+			}
+		} else if f != nil {
 			o.Print, o.Msg = printOutcome(f)
 			// RestoreFile directly as well
 			if o.Print != "panic" {
@@ -116,6 +131,10 @@ func c15Run(src []byte) []c15Obs {
 	one("Parse", func() (*dst.File, error) { return decorator.Parse(src) })
 	one("ParseFile", func() (*dst.File, error) {
 		return decorator.ParseFile(token.NewFileSet(), "x.go", src, parser.AllErrors)
+	})
+	// a decorator with import resolution (its restorer counterpart prints what comes back)
+	one("Parse+imports", func() (*dst.File, error) {
+		return decorator.NewDecoratorWithImports(token.NewFileSet(), "example.com/p", goast.New()).Parse(src)
 	})
 	one("ParseDir", func() (*dst.File, error) {
 		dir, err := os.MkdirTemp("", "dstv-c15-")
@@ -242,6 +261,18 @@ var damages = []damage{
 		out := append(append(append([][]byte{}, lines[:i]...), d), lines[i:]...)
 		return bytes.Join(out, []byte("\n"))
 	}},
+	{"break-import-path", func(s []byte, r *rand.Rand) []byte {
+		// the path literal of one import spec becomes something that is not a string literal
+		m := importPathRe.FindAllIndex(s, -1)
+		if len(m) == 0 {
+			return append(append([]byte{}, s...), []byte("\nimport 'x'\n")...)
+		}
+		at := m[r.Intn(len(m))]
+		lit := s[at[0]:at[1]]
+		inner := string(lit[1 : len(lit)-1])
+		repl := []string{"'" + inner + "'", "\"" + inner, inner, "1", "\"\\x" + inner + "\"", "`" + inner}[r.Intn(6)]
+		return append(append(append([]byte{}, s[:at[0]]...), repl...), s[at[1]:]...)
+	}},
 	{"insert-garbage", func(s []byte, r *rand.Rand) []byte {
 		g := []string{"}", "{", ")", "(", "func", ";;", "@", "#", "case", ":=", "...", "<-", "\\", "'", "0x", "1e", "/*", "*/", "//", "\r", "\t"}
 		i := r.Intn(len(s) + 1)
@@ -282,7 +313,11 @@ func gapInputs(src []byte, off, step int) [][]byte {
 	return out
 }
 
+var importPathRe = regexp.MustCompile(`"[A-Za-z0-9_./-]+"`)
+
 var c15Fixed = [][]byte{
+	[]byte("package p\nimport 'a'\nvar x = a.B\n"), []byte("package p\nimport \"a\nvar x = a.B\n"), []byte("package p\nimport a.b\nvar x = a.B\n"),
+	[]byte("package p\nimport \"\\xZ\"\nvar x = a.B\n"), []byte("package p\nimport 1\nvar x = a.B\n"), []byte("package p\n\nimport (\n\t\"fmt\"\n\tx 'y'\n)\n\nvar _ = fmt.Sprint(x.V)\n"),
 	[]byte(""), []byte("\n"), []byte(" \t\n\n"), []byte("// c\n"), []byte("/* c */"), []byte("func f(){}"), []byte("package"), []byte("package p"),
 	[]byte("package p;"), []byte("package p; func"), []byte("x"), []byte("package p\nfunc f() {"), []byte("package p\nvar x = "), []byte("package p\nimport"),
 	[]byte("package p\nimport \"a"), []byte("package p\n/*"), []byte("package p\nvar s = `"), []byte("\xEF\xBB\xBF"), []byte("\xEF\xBB\xBFpackage p\n"), []byte("package p\x00"),
@@ -297,18 +332,23 @@ var c15Fixed = [][]byte{
 func checkC15(c *Ctx) {
 	c.Assume("go/parser classifies each input (no file / no package clause / partial file / ok) independently of dst")
 	// (M) the entry-point machine: panic state unreachable with the package guard, reachable without
-	ok, err := RunTLC(TLCRun{Module: "Entry", Workers: 2, Timeout: 5 * time.Minute, Cfg: "CONSTANT GuardPackage = TRUE\nINIT Init\nNEXT Next\nINVARIANTS NoPanic NoPackageIsError\nCHECK_DEADLOCK FALSE\n"})
+	ok, err := RunTLC(TLCRun{Module: "Entry", Workers: 2, Timeout: 5 * time.Minute, Cfg: "CONSTANTS GuardPackage = TRUE GuardImportPath = TRUE\nINIT Init\nNEXT Next\nINVARIANTS NoPanic NoPackageIsError\nCHECK_DEADLOCK FALSE\n"})
 	if err != nil || !ok.OK() {
 		c.Infra("TLC model check of Entry failed: " + errText(ok, err))
 		return
 	}
 	c.TLC(ok)
-	bad, err := RunTLC(TLCRun{Module: "Entry", Workers: 2, Timeout: 5 * time.Minute, Cfg: "CONSTANT GuardPackage = FALSE\nINIT Init\nNEXT Next\nINVARIANTS NoPanic\nCHECK_DEADLOCK FALSE\n"})
+	bad, err := RunTLC(TLCRun{Module: "Entry", Workers: 2, Timeout: 5 * time.Minute, Cfg: "CONSTANTS GuardPackage = FALSE GuardImportPath = TRUE\nINIT Init\nNEXT Next\nINVARIANTS NoPanic\nCHECK_DEADLOCK FALSE\n"})
 	if err != nil || bad.Violated == "" {
 		c.Infra("TLC did not find the missing-package panic state without the guard: " + errText(bad, err))
 		return
 	}
-	c.Set("model", "Entry.tla: NoPanic holds with the package-clause guard (4 parser classes x 3 entry points) and is violated without it")
+	bad2, err := RunTLC(TLCRun{Module: "Entry", Workers: 2, Timeout: 5 * time.Minute, Cfg: "CONSTANTS GuardPackage = TRUE GuardImportPath = FALSE\nINIT Init\nNEXT Next\nINVARIANTS NoPanic\nCHECK_DEADLOCK FALSE\n"})
+	if err != nil || bad2.Violated == "" {
+		c.Infra("TLC did not find the malformed-import-path panic state without the guard: " + errText(bad2, err))
+		return
+	}
+	c.Set("model", "Entry.tla: NoPanic holds with the package-clause and import-path guards (4 parser classes x 4 entry points, malformed import paths) and is violated without either")
 
 	nFiles, perFile := 30, 24
 	if !c.Quick() {
